@@ -236,7 +236,12 @@ func (g *Galaxy) resolveNetworks(req *galaxyapi.PodRequest, pod *corev1.Pod) ([]
 
 func (g *Galaxy) getNetworkConf(networkName string) (map[string]interface{}, error) {
 	if netConf, ok := g.netConf[networkName]; ok {
-		return netConf, nil
+		// return a copy, cniutil.CmdAdd adds prevResult to it
+		copied := make(map[string]interface{}, len(netConf))
+		for k, v := range netConf {
+			copied[k] = v
+		}
+		return copied, nil
 	}
 	// In the absence of existing network config from json
 	// config, load and execute a CNI .configlist
